@@ -56,14 +56,53 @@ def gen_case(rng, kinds, max_depth=2, max_len=3, cap=40, opaque=False, ep=None, 
             rows = [[l] + [round(rng.uniform(-2.0, 2.0), 3) for _ in range(nx + nu)] for (l, t) in order]
         else:
             rows = pipes.tagged_matrix(rng, order, nx + nu, 2, hi)
+        degenerate = False
+        if rng.random() < 0.12:
+            # degenerate but valid data: identically zero input columns (an unexcited input), or one zero column
+            zc = list(range(1 + nx, 1 + nx + nu)) if (nu > 0 and rng.random() < 0.7) else [1 + rng.randrange(nx + nu)]
+            rows = [[(0 if j in zc else v) for j, v in enumerate(r)] for r in rows]
+            degenerate = True
         if not epf:
             rows = [r[1:] for r in rows]
-        return {'spec': spec, 'nx': nx, 'nu': nu, 'ep': epf, 'rows': rows, 'min_len': m}
+        exact_kinds = pipes.kinds_in(spec) <= {'poly', 'bilinear', 'const', 'delay', 'split', 'pipe'}
+        form = pick_form(rng, integral=not opaque, small=(not opaque) and exact_kinds and hi ** deg < 2 ** 22)
+        return {'spec': spec, 'nx': nx, 'nu': nu, 'ep': epf, 'rows': rows, 'min_len': m, 'form': form, 'degenerate': degenerate}
     raise RuntimeError('generator could not produce a case')
 
 
+FORMS = ('c', 'fortran', 'strided', 'readonly', 'int64', 'int32', 'float32')
+
+
+def in_form(X, form):
+    """the same matrix handed over in another valid form (memory layout, writability, dtype)"""
+    if form in (None, 'c'):
+        return X
+    if form == 'fortran':
+        return np.asfortranarray(X)
+    if form == 'strided':
+        big = np.full((2 * X.shape[0] + 1, 2 * X.shape[1] + 1), 777.0)
+        big[1::2, 1::2] = X
+        return big[1::2, 1::2]
+    if form == 'readonly':
+        Y = X.copy()
+        Y.setflags(write=False)
+        return Y
+    if form in ('int64', 'int32', 'float32'):
+        Y = X.astype(form)
+        return Y if np.array_equal(Y.astype(float), X) else X        # only when the conversion is exact
+    raise ValueError(form)
+
+
+def pick_form(rng, integral, small=False):
+    r = rng.random()
+    if r < 0.55:
+        return 'c'
+    pool = ['fortran', 'strided', 'readonly'] + (['int64', 'int32'] if integral else []) + (['float32'] if integral and small else [])
+    return rng.choice(pool)
+
+
 def X_of(case):
-    return np.array(case['rows'], dtype=float)
+    return in_form(np.array(case['rows'], dtype=float), case.get('form'))
 
 
 def fit_case(case):
